@@ -754,6 +754,37 @@ def supply_series(tc, co):
     }
 
 
+def c09_rounds(trace, V):
+    """C09, engine-P slice: the monthly crop quantities every round's optimiser is handed are the ones the parameter
+    computation produced - nothing rounds, truncates or otherwise re-quantises them on the way (incl. on retry paths)."""
+    snap = getattr(trace, "first_series", None)
+    if snap is None or not trace.rounds:
+        return
+    first = snap[1]
+    for rec in trace.rounds:
+        _N, cur = supply_series(rec["time_consts"], rec["consts"])
+        for name in ("outdoor_crops", "greenhouse_crops"):
+            arr, ref = cur[name], first[name]
+            same = arr.shape == ref.shape and bool((arr == ref).all())
+
+            def lattice():
+                if arr.shape != ref.shape:
+                    return None
+                for d in range(0, 7):
+                    if np.allclose(arr, np.round(ref, d), rtol=0, atol=1e-12) and not np.allclose(ref, np.round(ref, d), rtol=0, atol=1e-12):
+                        return "rounded_to_%d_decimals" % d
+                if np.allclose(arr, np.floor(ref), rtol=0, atol=1e-12) and not np.allclose(ref, np.floor(ref), rtol=0, atol=1e-12):
+                    return "truncated"
+                return "other"
+
+            V.check("no_quantisation", same, {"series": name, "where": "between_computation_and_optimiser", "round_type": rec["type"]},
+                    lambda: {"round_record": rec["index"] + 1, "how": lattice(),
+                             "month": first_bad(arr != ref) if arr.shape == ref.shape else None,
+                             "as_computed": ref[:3], "handed_to_optimiser": arr[:3]},
+                    "a monthly crop quantity was changed (rounded / truncated) between its computation and the optimiser")
+    trace.probe("c09_rounds_compared", len(trace.rounds))
+
+
 def c08_rounds(trace, V):
     """The supply series handed to the optimiser of rounds 2 and 3 must still be the round-1
     series (only meat, milk, feed and biofuel may differ between rounds), and every series of
